@@ -21,7 +21,7 @@ HOSTILE = ['<b>&"\'', 'a<script>alert(1)</script>', '"onmouseover="x', "'", "&am
            # values that look escaped at source (a complete reference) AND carry raw markup
            "Fish &amp; Chips<b>x</b>", "it&#39;s <i>", "&lt;<zq9>", "&#x3c;<u a=\"1\">", "<em>&nbsp;</em>"]
 # fragments for string-content variation: references, markup, separators
-FRAGMENTS = ["&amp;", "&#60;", "&#x3e;", "&lt;", "&quot;", "<b>", "</b>", "<i x=\"", "<", ">", "&", "\"", "a", "b", ";", "=", "/", " ", "#",
+FRAGMENTS = ["</script>", "</style>", "</textarea>", "</title>", "\";", "';", "<img onerror=x>", "&amp;", "&#60;", "&#x3e;", "&lt;", "&quot;", "<b>", "</b>", "<i x=\"", "<", ">", "&", "\"", "a", "b", ";", "=", "/", " ", "#",
              "<script>", "</p>", "<!--", "-->"]
 BENIGN = ["hello", "world", "a", "Item", "x1", "some text", "Z", "foo bar"]
 
@@ -237,6 +237,74 @@ class Iterable(IterLike):
         return len(self._items)
 
 
+class DuckSeq:
+    """a sequence by behaviour only: __len__ and __getitem__ with integer positions, nothing else"""
+    def __init__(self, items):
+        self._items = list(items)
+
+    def __len__(self):
+        return len(self._items)
+
+    def __getitem__(self, i):
+        if not isinstance(i, int):
+            raise TypeError("positions are integers")
+        return self._items[i]
+
+    def __str__(self):
+        return "(duck sequence of %d)" % len(self._items)
+    __repr__ = __str__
+
+
+class GetItemOnly:
+    """__getitem__ with integer positions but no length and no __iter__"""
+    def __init__(self, items):
+        self._items = list(items)
+
+    def __getitem__(self, i):
+        if not isinstance(i, int):
+            raise TypeError("positions are integers")
+        return self._items[i]
+
+    def __str__(self):
+        return "(getitem only)"
+    __repr__ = __str__
+
+
+class RefTpl:
+    """reference side of a compiled template used as a value: its tree"""
+    def __init__(self, src, tree):
+        self.src = src
+        self.nodes = tree_from_json(tree)
+
+
+TPL_FACTORY = [RefTpl]      # the implementation side compiles the source instead
+
+
+def build_seq(kind, items):
+    import array
+    import collections
+    if kind == "duck":
+        return DuckSeq(items)
+    if kind == "getitem":
+        return GetItemOnly(items)
+    if kind == "tuple":
+        return tuple(items)
+    if kind == "deque":
+        return collections.deque(items)
+    if kind == "range":
+        return range(len(items))
+    if kind == "array":
+        return array.array("i", range(3, 3 + len(items)))
+    if kind == "bytes":
+        return bytes(range(65, 65 + len(items)))
+    if kind == "str":
+        return "abcdefgh"[:len(items)]
+    raise ValueError(kind)
+
+
+SEQ_KINDS = ["duck", "duck", "getitem", "tuple", "deque", "range", "array", "bytes", "str"]
+SEQ_NAMES = ["q1", "q2"]
+TPL_NAMES = ["tp1", "tp2"]
 ITER_KINDS = {"i": OneShot, "n": NextOnly, "g": Iterable}
 ITER_NAMES = ["it1", "it2", "g1"]     # not in CTX_NAMES: only the iterator scenarios use them
 
@@ -248,6 +316,10 @@ def build_value(spec, counter=None):
         return CV_FACTORY[0](build_value(spec[1], counter))
     if k == "it":
         return ITER_KINDS[spec[1]]([build_value(x, counter) for x in spec[2]])
+    if k == "q":
+        return build_seq(spec[1], [build_value(x, counter) for x in spec[2]])
+    if k == "tpl":
+        return TPL_FACTORY[0](spec[1], spec[2])
     if k == "s":
         return spec[1]
     if k == "n":
@@ -328,6 +400,26 @@ CTX_KINDS = {"s1": ["s"], "s2": ["s"], "n1": ["n"], "l1": ["l"], "l2": ["l"], "e
              "z1": ["z"], "f1": ["c"], "t1": ["t"]}
 
 
+def gen_subtemplate(rng):
+    """a small template of its own: literal markup and a few statements over names of the calling context"""
+    kids = []
+    for _ in range(rng.choice([1, 2, 3])):
+        k = rng.random()
+        if k < 0.3:
+            kids.append(Text(rng.choice(["sub ", "(t)", " - "])))
+        elif k < 0.55:
+            kids.append(Elem("em", tal={"content": rng.choice(["x | string:no-x", "loc | s1 | string:none", "row | string:no-row", "n1"])},
+                             children=[Text("e")]))
+        elif k < 0.75:
+            kids.append(Elem("i", tal={"repeat": "k9 l1", "content": "k9"}, children=[Text("k")]))
+        elif k < 0.9:
+            kids.append(Elem("b", tal={"define": "%sw9 string:T" % rng.choice(["", "local "]), "content": "w9"}, children=[Text("b")]))
+        else:
+            kids.append(Elem("u", attrs=[("title", "sub")], tal={"attributes": "title attrs/title", "condition": "not:nope"},
+                             children=[Text("u")]))
+    return ["tpl", serialize(kids), tree_json(kids)]
+
+
 def gen_context(rng, hostile=True):
     ctx = {}
     def mapping():
@@ -353,6 +445,14 @@ def gen_context(rng, hostile=True):
         n = rng.choice([0, 0, 1, 2, 3])
         items = [rng.choice([["s", gen_string(rng, hostile)], ["n", rng.choice([0, 7])], ["s", "x"]]) for _ in range(n)]
         ctx[name] = ["it", "g" if name == "g1" else rng.choice(["i", "i", "n"]), items]
+    # sequences of every kind: by behaviour only (len + getitem), getitem only, tuple, deque, range, array, bytes, str
+    for name in SEQ_NAMES:
+        n = rng.choice([0, 1, 2, 3, 3, 4])
+        ctx[name] = ["q", rng.choice(SEQ_KINDS), [rng.choice([["s", gen_string(rng, hostile)], ["n", rng.choice([0, 7])], ["s", "x"]])
+                                                 for _ in range(n)]]
+    # compiled templates as values (what handlers/tal.py's loaders put into the context): used with `structure`
+    for name in TPL_NAMES:
+        ctx[name] = gen_subtemplate(rng)
     # indirection keys (never mutated by the C18 string-content variation)
     ctx["k1"] = ["s", rng.choice(["s1", "l1", "d1", "nope", "k"])]
     ctx["k2"] = ["s", rng.choice(["k", "name", "0", "label"])]
@@ -382,8 +482,8 @@ def vary_strings(rng, spec, hostile=True):
         return ["d", [[a, vary_strings(rng, b, hostile)] for a, b in spec[1]]]
     if k in ("c", "cv"):
         return [k, vary_strings(rng, spec[1], hostile)]
-    if k == "it":
-        return ["it", spec[1], [vary_strings(rng, x, hostile) for x in spec[2]]]
+    if k in ("it", "q"):
+        return [k, spec[1], [vary_strings(rng, x, hostile) for x in spec[2]]]
     return spec
 
 
@@ -397,8 +497,8 @@ def benign_strings(spec):
         return ["d", [[a, benign_strings(b)] for a, b in spec[1]]]
     if k in ("c", "cv"):
         return [k, benign_strings(spec[1])]
-    if k == "it":
-        return ["it", spec[1], [benign_strings(x) for x in spec[2]]]
+    if k in ("it", "q"):
+        return [k, spec[1], [benign_strings(x) for x in spec[2]]]
     return spec
 
 
@@ -742,11 +842,74 @@ def _probe(rng, expr_pool):
 
 
 def gen_scenario(rng, opts, sc):
-    kind = rng.choice(["callable-path", "same-name-loops", "shadow", "after-loop", "global-in-loop", "false-cond-define",
-                       "nested-loops", "indirect", "iterator-loop", "iterator-loop"] + (["macro-in-loop"] if (opts.metal and sc.macros) else []))
+    kinds_ = ["callable-path", "same-name-loops", "shadow", "after-loop", "global-in-loop", "false-cond-define",
+                       "nested-loops", "indirect", "iterator-loop", "iterator-loop", "attrs-loop", "sequence-kinds", "rawtext-element",
+                       "rawtext-element"] + (["subtemplate-structure"] * 2 if opts.structure else []) + (["macro-in-loop"] if (opts.metal and sc.macros) else [])
+    kind = rng.choice(kinds_)
     key = rng.choice(ITEM_KEYS)
     seq, seq2 = rng.choice([("m1", "m2"), ("m2", "m1"), ("l1", "m1"), ("m1", "l2"), ("d3/seq", "m1")])
     var = rng.choice(["i", "j", "it", "row"])
+    if kind == "attrs-loop":
+        # attrs = the original attributes of the element whose statement is being evaluated: on a repeated element (several
+        # items) whose children carry statements and attributes of the same names
+        an = rng.choice(["title", "class", "id", "lang"])
+        inner = Elem(rng.choice(["b", "span", "td"]), attrs=[(an, "cell"), ("alt", "in")],
+                     tal={rng.choice(["content", "replace"]): rng.choice(["attrs/%s" % an, "string:${attrs/%s}/${attrs/alt | string:-}" % an, var])},
+                     children=[Text("c")])
+        inner2 = Elem("i", attrs=[(an, "deep")], tal={"attributes": "name attrs/%s" % an, "omit-tag": "not:attrs/%s" % an}, children=[Text("d")])
+        outer_tal = {"repeat": "%s %s" % (var, rng.choice(["l1", "m1", "l2", "q1", "string:abc"]))}
+        for st in rng.sample(["attributes", "condition", "omit-tag", "define"], rng.choice([1, 2, 3])):
+            outer_tal[st] = {"attributes": "name attrs/%s; alt attrs/alt | attrs/%s" % (an, an), "condition": "attrs/%s" % an,
+                             "omit-tag": "not:attrs/%s" % an, "define": "x attrs/%s" % an}[st]
+        kids = [inner, Text(" "), inner2]
+        if rng.random() < 0.5:
+            kids.append(_probe(rng, ["attrs/%s | string:none" % an, "x | string:no-x"]))
+        outer = Elem(rng.choice(["tr", "li", "div"]), attrs=[(an, "row")], tal=outer_tal, children=kids)
+        return [outer, _probe(rng, ["attrs/%s | string:none" % an])]
+    if kind == "sequence-kinds":
+        # every attribute of the repeat variable, over sequences of every kind
+        q = rng.choice(SEQ_NAMES + ["string:xyz", "l1"])
+        reads = rng.sample(REP_ATTRS, rng.choice([3, 5, 11]))
+        body = [Elem("b", tal={"content": "string:${repeat/%s/%s}" % (var, a)}, children=[Text("-")]) for a in reads]
+        body.append(Elem("i", tal={"condition": "repeat/%s/end" % var}, children=[Text("last")]))
+        body.append(Elem("i", tal={"condition": "repeat/%s/start" % var}, children=[Text("first")]))
+        body.append(Elem("u", tal={"content": var}, children=[Text("v")]))
+        return [Elem("p", tal={"repeat": "%s %s" % (var, q)}, children=body),
+                _probe(rng, ["%s/0 | string:none" % q.replace("string:xyz", "q1"), "exists:repeat/%s" % var])]
+    if kind == "rawtext-element":
+        # data written into elements whose content the browser does not parse as markup (script, style, textarea, title)
+        # and into pre / option, as content, as replacement and as attribute values of every kind, with and without `text`
+        tag = rng.choice(["script", "style", "textarea", "title", "pre", "option", "script", "style"])
+        src = rng.choice(["s1", "s2", "t1", "v2", "l1/0", "d1/k | s1", "f1", "string:${s1};${s2}", "m1/0/name | s2"])
+        kw = rng.choice(["", "", "text "])
+        tal = {rng.choice(["content", "content", "replace"]): kw + src}
+        if rng.random() < 0.6:
+            tal["attributes"] = "; ".join("%s %s" % (a, rng.choice(["s1", "s2", "v2", "t1 | s2"]).replace(";", ";;"))
+                                          for a in rng.sample(["onclick", "onmouseover", "href", "src", "type", "title", "value", "style",
+                                                               "data-x"], rng.choice([1, 2])))
+        e = Elem(tag, attrs=[(rng.choice(["type", "id", "lang"]), "t")], tal=tal, children=[Text("x = 1;")])
+        other = Elem(rng.choice(["a", "input", "img", "button"]), attrs=[("href", "#")],
+                     tal={"attributes": "; ".join("%s %s" % (a, rng.choice(["s1", "s2", "v2"])) for a in
+                                                  rng.sample(["onclick", "onerror", "href", "src", "value", "style"], 2))})
+        if other.is_void():
+            other.children = []
+        else:
+            other.children = [Text("k")]
+        return [e, other]
+    if kind == "subtemplate-structure":
+        # a compiled template as a value, written with `structure` by an element that ALSO carries a local define,
+        # outside or inside a loop; the define's variable is looked at afterwards
+        tp = rng.choice(TPL_NAMES)
+        name = rng.choice(["x", "loc", "y"])
+        e = Elem(rng.choice(["div", "span", "td"]),
+                 tal={"define": "%s%s %s" % (rng.choice(["", "local "]), name, rng.choice(["string:L", "s1", "n1"])),
+                      rng.choice(["content", "replace"]): "structure %s" % rng.choice([tp, tp, "nope | %s" % tp])},
+                 children=[Text("d")])
+        after = _probe(rng, ["%s | string:no-%s" % (name, name), "exists:%s" % name])
+        if rng.random() < 0.5:
+            return [Elem("ul", tal={"repeat": "row %s" % rng.choice(["l1", "m1", "l2"])},
+                         children=[e, _probe(rng, ["row", "repeat/row/number", "%s | string:no-%s" % (name, name)])]), after]
+        return [e, after]
     if kind == "iterator-loop":
         # repeat over things that are not sequences (iterators, generators: possibly empty, exhausted by an earlier loop),
         # inside an element with a local define, possibly inside a loop over a list; the define's variable, the loop
